@@ -117,6 +117,8 @@ def gen_operand(rng, cls, shape, kind=None, rep=None, deriv=False, special=0.3):
         d['kind'] = 'float'
         d['vals'] = [[float(x) for x in it] for it in d['vals']]
         d['deriv'] = [[rng.choice([-1., 0.5, 1., 2.]) for _ in range(isz)] for _ in range(n)]
+    if tuple(shape) == () and cls == 'Scalar' and d['kind'] == 'float' and d.get('deriv') is None and rng.random() < 0.35:
+        d['npscalar'] = True        # built as x[0]: the value is a NumPy scalar, not a Python float
     return d
 
 
@@ -171,6 +173,10 @@ def build(d, Pm):
         arr = arr.item()
     klass = getattr(Pm, PMCLS.get(cls, cls))
     obj = klass(arr, mask)
+    if d.get('npscalar') and shape + item == () and d['kind'] == 'float' and d.get('deriv') is None:
+        # a shapeless object whose value came out of NumPy (as x[0], x.sum() ... give): the arithmetic of
+        # Python numbers and of NumPy scalars differs exactly at the undefined points (seeded change C02-F)
+        obj = klass(np.array([arr, arr]), mask)[0]
     if d.get('deriv') is not None:
         darr = np.array(d['deriv'], dtype=float).reshape(shape + item)
         if shape + item == ():
@@ -385,6 +391,13 @@ def build_ops(Pm):
     for nm in ['sin', 'cos', 'tan', 'arctan', 'exp', 'sign', 'int', 'frac']:
         op(nm, (lambda nm: lambda a: getattr(a, nm)())(nm), 'none', ('E1', 'OPass'), [('Scalar',)],
            builtins=(nm in ('sign', 'int')))
+    # Vector3.spin replaces degenerate poles / perpendiculars through mask_where(..., remask=False): whatever it
+    # decides about them, an element masked in an operand stays masked (only that direction is judged; no Coq model)
+    op('spin', lambda a, b, c: a.spin(b, c), 'none', None, [('Vector3', 'Vector3', 'Scalar')], only_in_out=True)
+    op('int_clip', lambda a: a.int(top=2, clip=True), 'none', ('E1', 'OPass'), [('Scalar',)])
+    op('int_top', lambda a: a.int(top=2), 'none', ('E1', 'OPass'), [('Scalar',)])
+    op('clip_noremask', lambda a: a.clip(0, 1, remask=False), 'none', ('E1', 'OPass'), [('Scalar',)])
+    op('mask_where_replace_keep', lambda a: a.mask_where_le(0, replace=7, remask=False), 'none', ('E1', 'OPass'), [('Scalar',)])
     op('round1', lambda a: round(a, 1), 'none', ('E1', 'OPass'), [('Scalar',)])
     op('sign_nozeros', lambda a: a.sign(zeros=False), 'none', ('E1', 'OPass'), [('Scalar',)])
     op('sqrt', lambda a: a.sqrt(), 'neg', ('E1', 'OSqrt'), [('Scalar',)])
@@ -510,6 +523,8 @@ def observe(res, Pm):
     if not isinstance(res, Pm.Qube):
         return {'kind': 'other', 'repr': repr(res)[:200]}
     lead = res._shape_
+    if np.shape(res._mask_) not in ((), tuple(lead)):
+        return {'kind': 'malformed', 'repr': 'mask of shape %s on an object of shape %s' % (np.shape(res._mask_), tuple(lead))}
     m = np.broadcast_to(np.asarray(res._mask_, bool), lead)
     nan, inf = finite_unmasked(res, Pm)
     dnan = dinf = 0
@@ -574,6 +589,8 @@ def judge(case, impl, ref, ops, check_values):
         return ['exception']
     if impl['kind'] == 'other':
         return ['not-a-qube']
+    if impl['kind'] == 'malformed':
+        return ['malformed-result']
     if o.get('fast') and any(ref[4]):
         # fast path used outside its contract without an error: nothing is promised
         return []
@@ -587,7 +604,7 @@ def judge(case, impl, ref, ops, check_values):
         und_missing = any(u and not i for i, u in zip(impl['mask'], ref[3]))
         if missing:
             bad.append('undefined-not-masked' if und_missing else 'masked-operand-not-masked')
-        if extra:
+        if extra and not o.get('only_in_out'):
             bad.append('defined-element-masked')
     if check_values:
         if impl.get('nan') or impl.get('inf'):
